@@ -1,4 +1,16 @@
-/- C07 — property theorems (stub; filled in by the owning work package). -/
-import Rdm.Basic
+/-
+  C07 — biases compose with every method and keep the working data coherent.
+  (Listener-level theorems; the per-bias preservation theorems are in C15–C19.)
+-/
+import Rdm.Model.Listener
+import Rdm.Spec.C07
 namespace Rdm.Props.C07
+open Rdm
+
+/-- Known finding, machine-checked on the model (= the code, by correspondence): the OWA listener can
+    never merge what its own `OnCriterionAdded` returns — `Merge` fails for every addition. -/
+theorem owa_merge_always_fails {α : Type} [Num α] (wc : List (WCrit α)) (add : Addition α) :
+    ∃ e, mergeParams (.owa wc) add = .error e := by
+  cases add <;> exact ⟨_, rfl⟩
+
 end Rdm.Props.C07
